@@ -151,6 +151,7 @@ func (c WTLengthSliceWrapper) Read(data []byte, ptr unsafe.Pointer, wt plenccore
 
 	offset := n
 	for i := 0; i < h.Len; i++ {
+		verifYield("slice.elem")
 		s, n := plenccore.ReadVarUint(data[offset:])
 		if n <= 0 {
 			return 0, fmt.Errorf("invalid varint for slice entry %d", i)
@@ -194,6 +195,7 @@ func (c WTLengthSliceWrapper) readAsWTLength(data []byte, ptr unsafe.Pointer) (n
 		*h = nh
 	}
 
+	verifYield("slice.append")
 	dptr := unsafe.Add(h.Data, h.Len*int(c.EltSize))
 	typedmemclr(unpackEFace(c.EltType).data, dptr)
 	n, err = c.Underlying.Read(data, dptr, plenccore.WTLength)
@@ -305,6 +307,7 @@ func (c WTVarIntSliceWrapper) Read(data []byte, ptr unsafe.Pointer, wt plenccore
 	// We step forward through out data to count how many things are in the slice
 	var offset, count int
 	for offset < len(data) {
+		verifYield("slice.varint")
 		_, n := plenccore.ReadVarUint(data[offset:])
 		if n < 0 {
 			return 0, fmt.Errorf("corrupt data")
@@ -404,6 +407,7 @@ func (c ProtoSliceWrapper) Read(data []byte, ptr unsafe.Pointer, wt plenccore.Wi
 		*h = nh
 	}
 
+	verifYield("slice.append")
 	dptr := unsafe.Add(h.Data, h.Len*int(c.EltSize))
 	typedmemclr(unpackEFace(c.EltType).data, dptr)
 	n, err = c.Underlying.Read(data, dptr, plenccore.WTLength)
